@@ -589,6 +589,8 @@ pub fn spaces_mode<'a>(prop: &'a str, mode: Mode, deadline: Instant, threads: us
                 Op::Orig(OrigOp::DeallocOld),
                 Op::Orig(OrigOp::TryReserve(8)),
                 Op::Orig(OrigOp::PanickingReserve(8)),
+                Op::Orig(OrigOp::TryReserve(0)),
+                Op::Orig(OrigOp::PanickingReserve(0)),
                 Op::Orig(OrigOp::Prepare(8)),
                 Op::Orig(OrigOp::Stats),
                 Op::Orig(OrigOp::ClaimAgain),
@@ -599,7 +601,7 @@ pub fn spaces_mode<'a>(prop: &'a str, mode: Mode, deadline: Instant, threads: us
                 params(&[Handle::Direct, Handle::Dyn, Handle::WoDeallocWoShrink], &[Ctor::TryNew, Ctor::Unallocated], &[z]),
                 FaultMode::None,
                 nontrivial_c14,
-                "every enabled history interleaving operations on the claim guard (allocation, chunk growth, inner scopes, nested claims, exits by return/unwind) with operations on the claimed original (12 kinds) up to the depth bound; non-trivial = an operation on the claimed original was executed or a claim was ended explicitly",
+                "every enabled history interleaving operations on the claim guard (allocation, chunk growth, inner scopes, nested claims, exits by return/unwind) with operations on the claimed original (14 kinds, including zero-byte reserves) up to the depth bound; non-trivial = an operation on the claimed original was executed or a claim was ended explicitly",
                 500,
             )]
         }
@@ -680,10 +682,13 @@ pub fn spaces_mode<'a>(prop: &'a str, mode: Mode, deadline: Instant, threads: us
                 Op::Exit,
                 Op::ResetToStart,
             ];
+            // an arena without a chunk takes the entry points through the chunk-creating slow path first
+            let mut ps = params(&[Handle::Direct], &[Ctor::TryNew], &[z, og]);
+            ps.extend(params(&[Handle::Direct], &[Ctor::Unallocated], &[z]));
             let mut sp = mk(
                 a,
                 d(3, 4),
-                params(&[Handle::Direct], &[Ctor::TryNew], &[z, og]),
+                ps,
                 FaultMode::None,
                 nontrivial_c01,
                 "every enabled history over the alphabet up to the depth bound is executed through the reference entry point (Bump / BumpScope inherent and static trait impls) and through 14 alternative entry points (&, &&, &mut, dyn MutBumpAllocatorCoreScope, WithoutDealloc, WithoutShrink, both nestings, dyn BumpAllocatorCoreScope, dyn BumpAllocatorCore, panicking twin, dyn + panicking twin, generic layout path instead of typed fast paths, BumpScope by value instead of Bump); after every step the chunk index and offset of the returned block, its layout, allocated(), count() and remaining() must be equal; transitions counts reference + variant runs; non-trivial = the reference history performed a realloc, switched chunks or had >= 2 live blocks",
